@@ -360,6 +360,9 @@ def cases(dc, journal='wal'):
         'get inline tags': lambda c, r: c.get('s', expire_time=True, tag=True),
         'getitem': lambda c, r: c['f'],
         'read': lambda c, r: c.read('b').read(),
+        'get file as handle': lambda c, r: read_all(c.get('b', read=True)),
+        'get inline read=True': lambda c, r: c.get('s', 'D', read=True, tag=True),
+        'get missing read=True': lambda c, r: c.get('nope', 'D', read=True),
         'contains': lambda c, r: 'f' in c,
         'len': lambda c, r: len(c),
         'iter': lambda c, r: list(c),
